@@ -25,7 +25,7 @@ PLAN = {
     'C09': [('hist', 120, 1200, 14)],
     'C10': [('hist', 96, 900, 12)],
     'C11': [('hist', 96, 900, 14)],
-    'C12': [('hist', 96, 300, 10)],   # (thorough: the damage oracle re-validates after every flip of every object: minutes per big history)
+    'C12': [('hist', 96, 150, 10)],   # (thorough: the damage oracle re-validates after every flip of every object: minutes per big history)
     'C13': [('hist', 120, 1200, 14)],
     'C14': [('hist', 96, 900, 8)],
     'C15': [('backup', 10, 60, 0)],
